@@ -1,26 +1,32 @@
 # Unit Q31 — the caches are transparent (PageCache / LeafCache / PageSet; hook H21).  Loaded by props.py.
 CACHES_RUN = {"cmd": "caches", "mode": "caches", "cases": {"quick": 2000, "thorough": 60000}, "shards": {"quick": 4, "thorough": 16}}
 CACHES_DB_RUN = {"cmd": "caches-db", "mode": "caches", "cases": {"quick": 24, "thorough": 480}, "shards": {"quick": 4, "thorough": 16}}
+# corpus run = the replay of finding F25 (Nomt::open with page_cache_size(0) panicked in make_shards before repair 6886fe6)
+CACHES_OPEN0 = {"cmd": "caches-open0", "mode": "caches", "cases": {"quick": 1, "thorough": 1}, "shards": {"quick": 1, "thorough": 1}, "seed": 1, "corpus": True}
 CACHES_RULE = (
-    " caches run (hook H21): a case = ONE real cache instance — PageCache (1..64 shards, also 0 / 65 / 100; 0 / 1 / 2 / 16 / 2^44 MiB; 0..3 pinned levels; per-root-child limit 1..3 pages "
+    " caches run (hook H21): a case = ONE real cache instance — PageCache (1..64 shards, also 0 / 65 / 100; 0 (one page per shard, the repair of F25) / 1 / 2 / 16 / 2^44 MiB; 0..3 pinned levels; per-root-child limit 1..3 pages "
     "set through the hook; root page present or not), LeafCache (1..64 shards, also 0; 0 / 1 / 2 MiB; max_items 0..3 per shard) or PageSet (working map + warmed-up map) — driven through 20..60 "
     "generated calls over a small universe of page ids around the pinned depth / of RECYCLED page numbers: cached reads (get, on a miss load + insert), commits (batch_update with changed and removed "
     "pages), evict, prepopulation, syncs (leaf writes at fresh or recycled page numbers, PostIoWork insertions, evict); after EVERY call the whole contents (pinned map, LRU order most recent first, "
     "limits, root slot) are compared line by line with the Lean mirror Store/CacheModel.lean (the definitions of T13_page_cache_transparent / T13_leaf_cache_transparent / T2_pinned_never_evicted); "
-    "predicted panics of PageCache::new / LeafCache::new (0 or > 64 shards, size 0, size >= 2^44 MiB) must agree; ~1/6 of the cases leave the callers' protocol on purpose (comparison only). "
+    "predicted panics of PageCache::new / LeafCache::new (0 or > 64 shards, size >= 2^44 MiB; size 0 must NOT panic) must agree; ~1/6 of the cases leave the callers' protocol on purpose (comparison only). "
     "Oracles independent of Lean: cached read == reference map (page cache and leaf cache); every cached entry == reference map (coherence, on the dump); after evict no LRU above its limit, limits "
     "add up to <= the budget; entries never change shard; C02: a page of depth 1..levels inserted / committed and not removed since is in the pinned map with the stored value after every later call. "
     "distinct & non-trivial = distinct (configuration, hit / miss / commit / evict pattern) signatures."
 )
 CACHES_DB_RULE = (
-    " caches-db run: a case = a real store (leaf cache 0 / 1 MiB = 0 / 8 leaves per shard, 1..4 commit workers, page cache 1 / 4 MiB, 0..3 pinned levels, prepopulation on / off, warm-up) with 3..6 "
+    " caches-db run: a case = a real store (leaf cache 0 / 1 MiB = 0 / 8 leaves per shard, 1..4 commit workers, page cache 0 / 1 / 4 MiB, 0..3 pinned levels, prepopulation on / off, warm-up) with 3..6 "
     "commits of fat values (3 per leaf; hundreds of leaves; page numbers recycled from the second commit on) interleaved with direct and session reads.  Every LeafCache::get (observed under the shard "
     "lock), insert (observed at its three call sites) and per-shard evict of the REAL code is (a) checked against the ln FILE — a hit must return, an insertion must pass, byte for byte the page stored "
     "at that page number at that moment: the callers' protocol LProto of the transparency theorem — and (b) replayed by the Lean mirror, which must predict every hit and miss; read values are compared "
     "with a BTreeMap (tag C01)."
 )
+CACHES_OPEN0_RULE = (
+    " caches-open0 corpus run (replay of F25): PageCache::new with page_cache_size 0 for every shard count 1..64 (dump compared with the mirror: one page per shard), then three real stores "
+    "(leaf_cache_size(0); page_cache_size(0); both) each opened, committed to three times and read back; any panic or wrong value fails."
+)
 EXTRA = {
-    "C13": {"runs": [dict(CACHES_RUN), dict(CACHES_DB_RUN)], "rule": CACHES_RULE + CACHES_DB_RULE,
+    "C13": {"runs": [dict(CACHES_OPEN0), dict(CACHES_RUN), dict(CACHES_DB_RUN)], "rule": CACHES_RULE + CACHES_DB_RULE + CACHES_OPEN0_RULE,
             "trusted_base": ["the lru crate's internal agreement between its hash map and its linked list (the mirror keeps one list)"],
             "assumptions": ["page-cache commits are atomic w.r.t. reads (sessions hold the read side of the access lock, commits the write side — C15)",
                             "leaf cache: no lookup of a page number between its write and its insertion (LProto; checked on the real callers by the caches-db run and by reading the three call sites)"]},
